@@ -34,6 +34,8 @@ type splitCase struct {
 	Topology []string `json:"registered_sublisteners"`
 	Native   bool     `json:"native_conns"`
 	Order    int      `json:"registration_order_seed"`
+	// the base listener reports its closure with its own sentinel error instead of net.ErrClosed
+	OwnSentinel bool `json:"base_listener_closes_with_own_sentinel,omitempty"`
 }
 
 type splitClient struct {
@@ -67,7 +69,13 @@ type delivery struct {
 
 func runSplitCase(c *engine.Ctx, s *world.Server, node *world.Node, sc splitCase) {
 	r := c.R
-	lw, err := world.NewLW(s, world.LWCfg{BaseTLS: baseTLSConfig(), NoAccept: true})
+	lc := world.LWCfg{BaseTLS: baseTLSConfig(), NoAccept: true}
+	if sc.OwnSentinel {
+		// a base listener that announces closure with its own error (as multiplexing and
+		// in-memory listeners do), not one wrapping net.ErrClosed
+		lc.BaseCloseErr = errors.New("mux: listener closed")
+	}
+	lw, err := world.NewLW(s, lc)
 	if err != nil {
 		r.Broken("listener: " + err.Error())
 		return
@@ -247,11 +255,26 @@ func runSplitCase(c *engine.Ctx, s *world.Server, node *world.Node, sc splitCase
 
 	// ---- shutdown: every sub-listener must report closed -----------------------
 	_ = lw.IL.Close()
-	select {
-	case <-startDone:
-	case <-time.After(30 * time.Second):
-		r.Inconclusive("SplitListener.Start did not return 30 s after the base listener was closed")
-		return
+	watchdog := time.After(30 * time.Second)
+waitStart:
+	for {
+		select {
+		case <-startDone:
+			break waitStart
+		case <-watchdog:
+			r.Inconclusive("SplitListener.Start did not return 30 s after the base listener was closed")
+			return
+		case <-time.After(2 * time.Millisecond):
+			// decided on steps, not on time: Start has called Accept on the closed base listener
+			// a thousand times and is still running, so it will never close the sub-listeners
+			if n := lw.TL.AcceptsAfterClose.Load(); n >= 1000 {
+				r.Violation("sublistener-not-closed:start-keeps-accepting", fmt.Sprintf("after the base listener was closed (closure reported with its own sentinel: %v) Start kept calling Accept (%d calls) instead of closing the sub-listeners", sc.OwnSentinel, n), sc)
+				return
+			}
+		}
+	}
+	if sc.OwnSentinel {
+		r.Count("base_listener_closed_with_own_sentinel", 1)
 	}
 	done := make(chan struct{})
 	go func() { subWG.Wait(); close(done) }()
@@ -325,7 +348,7 @@ func runSplit(c *engine.Ctx) engine.Result {
 			}
 			sort.Strings(topo)
 			for _, native := range []bool{false, true} {
-				cases = append(cases, splitCase{Topology: topo, Native: native, Order: rep})
+				cases = append(cases, splitCase{Topology: topo, Native: native, Order: rep, OwnSentinel: (mask+rep)%2 == 1})
 			}
 		}
 	}
@@ -339,5 +362,6 @@ func runSplit(c *engine.Ctx) engine.Result {
 	r.Require("closed_as_expected:base", 5)
 	r.Require("closed_as_expected:fetch", 5)
 	r.Require("sublisteners_reported_closed", 10)
+	r.Require("base_listener_closed_with_own_sentinel", 10)
 	return res
 }
